@@ -30,7 +30,7 @@ def run(tier, replay):
     mc = lib.tlc("KAuthPrivMC", cfg="KAuthPrivMC" if quick else "KAuthPrivMC2", pid=PID, workers=4 if quick else 8, timeout=900)
     lib.tlc_must_pass(mc, "KAuthPrivMC: L2Scope against L1Scope")
     obs = f"{wd}/obs.ndjson"
-    policies = ["86400:600"] if quick else ["86400:600", "1800:300", "7200:3600", "900:60"]
+    policies = ["86400:600"] if quick else ["86400:600", "1800:300", "7200:120", "900:60"]
     if replay:
         lib.kverif(tokcommon.GROUP, ["priv", "--out", obs, "--replay", replay])
     else:
